@@ -198,7 +198,7 @@ func (p *pkgInfo) localVarInit(fn, name string, env map[string]constant.Value) (
 		switch n := n.(type) {
 		case *ast.ValueSpec:
 			for i, nm := range n.Names {
-				if nm.Name == name && i < len(n.Values) {
+				if strings.EqualFold(nm.Name, name) && i < len(n.Values) { // the register is called R or r
 					if v, ok := p.evalConst(n.Values[i], 0, env); ok {
 						res, found = v, true
 					}
@@ -207,7 +207,7 @@ func (p *pkgInfo) localVarInit(fn, name string, env map[string]constant.Value) (
 		case *ast.AssignStmt:
 			if n.Tok == token.DEFINE {
 				for i, l := range n.Lhs {
-					if id, ok := l.(*ast.Ident); ok && id.Name == name && i < len(n.Rhs) {
+					if id, ok := l.(*ast.Ident); ok && strings.EqualFold(id.Name, name) && i < len(n.Rhs) {
 						if v, ok := p.evalConst(n.Rhs[i], 0, env); ok {
 							res, found = v, true
 						}
@@ -437,7 +437,7 @@ func genConsts(out string, root, t1, pfbp, names *pkgInfo) {
 	lf.printf("def t1_appendNumberQTests : List String := %s\n", leanStrList(t1.intLiteralsComparedWith("appendNumber", "q", tc)))
 	lf.printf("def t1_readShortCipherTests : List String := %s\n", leanStrList(t1.intLiteralsComparedWith("Read", "len(obfuscated)", tc)))
 	lf.printf("\n/-! literal limits inside the interpreter -/\n")
-	lf.printf("def root_execDepthTests : List String := %s\n", leanStrList(root.intLiteralsComparedWith("Interpreter.executeOne", "execStackDepth", rc)))
+	lf.printf("def root_execDepthTests : List String := %s\n", leanStrList(dedup(root.intLiteralsComparedWith("Interpreter.executeOne", "execStackDepth", rc))))
 	lf.printf("def root_errorLevelTests : List String := %s\n", leanStrList(root.intLiteralsComparedWith("Interpreter.executeOne", "level", rc)))
 	lf.printf("def root_stackDepthTests : List String := %s\n", leanStrList(root.intLiteralsComparedWith("Interpreter.executeOne", "len(intp.Stack)", rc)))
 	lf.printf("def root_internaldictTests : List String := %s\n", leanStrList(root.intLiteralsComparedWith("bInternaldict", "index", rc)))
@@ -445,7 +445,8 @@ func genConsts(out string, root, t1, pfbp, names *pkgInfo) {
 	lf.printf("\n/-! package type1/names -/\n")
 	lf.printf("def names_maxNameLength : Option Int := %s\n", get(nc, "maxNameLength"))
 	lf.printf("\n/-! package pfb: comparisons of the header bytes -/\n")
-	lf.printf("def pfb_headerTests : List String := %s\n", leanStrList(pfbp.intLiteralsComparedWith("pfbReader.Read", "buf[", pfbp.consts())))
+	// anywhere in the package (the header may be decoded in a helper), as a sorted set
+	lf.printf("def pfb_headerTests : List String := %s\n", leanStrList(dedup(pfbp.intLiteralsComparedWith("", "buf[", pfbp.consts()))))
 	lf.write(out)
 }
 
@@ -481,6 +482,26 @@ func cmapLimitTests(root *pkgInfo, env map[string]constant.Value) []string {
 		}
 		return true
 	})
+	if len(res) == 0 {
+		// the test may live in a helper shared by the seven begin* operators: comparisons of `n` in cmap.go
+		for _, f := range sortedFiles(root.files) {
+			if !strings.HasSuffix(fset.Position(f.Pos()).Filename, "cmap.go") {
+				continue
+			}
+			ast.Inspect(f, func(n ast.Node) bool {
+				be, ok := n.(*ast.BinaryExpr)
+				if !ok {
+					return true
+				}
+				if id, ok := be.X.(*ast.Ident); ok && id.Name == "n" {
+					if v, ok := root.evalConst(be.Y, 0, env); ok {
+						res = append(res, be.Op.String()+" "+v.ExactString())
+					}
+				}
+				return true
+			})
+		}
+	}
 	return res
 }
 
